@@ -6,7 +6,7 @@ From Coq Require Import List String NArith ZArith Bool.
 From SV Require Import Bin.LE Bin.Struct Bin.StructProofs Bin.RLE Bin.RLEProofs Bin.FindInsert Bin.FindInsertProofs
   Fmt.BspFormatsSpec Fmt.BspFormatsProofs Fmt.BspVisRow Fmt.BspVisRowProofs Fmt.BspTexStrings Fmt.BspTexStringsProofs
   Fmt.BspRecords Fmt.BspRecordsProofs Fmt.VmfText Fmt.BspEntLump Fmt.BspEntLumpProofs Fmt.BspDedup Fmt.BspDedupProofs Fmt.BspFlagSplit Fmt.BspFlagSplitProofs
-  Fmt.BspOverlayRec Fmt.BspOverlayRecProofs Fmt.BspWorklist Fmt.BspWorklistProofs Fmt.BspPhys Fmt.BspPhysProofs Bin.BspDeferred Bin.BspDeferredProofs.
+  Fmt.BspOverlayRec Fmt.BspOverlayRecProofs Fmt.BspWorklist Fmt.BspWorklistProofs Fmt.BspPhys Fmt.BspPhysProofs Bin.BspDeferred Bin.BspDeferredProofs Fmt.BspSpriteDict Fmt.BspSpriteDictProofs.
 Import ListNotations.
 
 (** * struct: unpack inverts pack for every format and every fitting record *)
@@ -372,3 +372,18 @@ Proof. exact dw_two_pass. Qed.
 (** A slot that never got its value is an error (ValueError), not a file with zeros in it. *)
 Theorem c11_deferred_unset_slot_is_error : dwhole [DWrite [1%N]; DDefer 0 4; DWrite [2%N]] = None.
 Proof. exact dw_unset_slot_is_error. Qed.
+
+(** * Round 4: the sprite dictionary of the detail-prop lump *)
+(** Generic over the slots read from both sides: if [sprite_dict_ok], every class that goes through the dictionary has the
+    same attribute component in every slot on both sides, one well-formed format with exactly that many values, and for
+    ANY assignment of values to the components that fits the format the entry is read back slot by slot. *)
+Theorem c11_sprite_dict_roundtrip : forall wf rf entries, sprite_dict_ok (wf, rf) entries = true ->
+  forall c w r, In (c, w, r) entries ->
+  w = r /\ exists f, parse_fmt wf = Some f /\ parse_fmt rf = Some f /\ nvalues f = List.length w /\
+  forall field : string -> value, fits f (map field w) = true ->
+    exists bs, pack f (map field w) = Some bs /\ unpack f bs = Some (map field r).
+Proof. exact sprite_dict_roundtrip. Qed.
+Theorem c11_sprite_dict_swapped_refuted :
+  sprite_dict_ok ("<8f", "<8f")%string [("S", ["a.0"; "a.1"; "b.0"; "b.1"], ["b.0"; "b.1"; "a.0"; "a.1"])]%string = false /\
+  sprite_dict_ok ("<4f", "<4f")%string [("S", ["a.0"; "a.1"; "b.0"; "b.1"], ["a.0"; "a.1"; "b.0"; "b.1"])]%string = true.
+Proof. exact sprite_dict_swapped_refuted. Qed.
